@@ -16,7 +16,7 @@ props = [json.loads(l)["id"] for l in open(os.path.join(R, "properties.jsonl")) 
 checks, na = [], []
 for pid in props:
     m = meta.get(pid, {})
-    if pid in cfg and not m.get("not_applicable"):
+    if pid in cfg and not m.get("not_applicable") and m.get("ready"):
         checks.append({
             "property_id": pid,
             "quick_cmd": "./check %s --tier quick" % pid,
